@@ -668,16 +668,6 @@ theorem step_agree (hB : 65535 ≤ B) (l l2 : Labels) (c : Cur) (st : Acct) (l1 
 
 /-! ## the second pass follows the first -/
 
-theorem Spec.self {α : Type} {S : List Nat} {B : Nat} {m : TM α} {Q : α → Prop} (h : Spec S B m Q) :
-    Spec S B m (fun a => Q a ∧ ∃ st, (m st).1 = .ok a) := by
-  intro st
-  have h1 := h st
-  refine ⟨h1.1, ?_⟩
-  cases hr : (m st).1 with
-  | ok a => rw [hr] at h1; exact ⟨h1.2, st, hr⟩
-  | err => trivial
-  | panic s => rw [hr] at h1; exact h1.2
-
 theorem Spec.and {α : Type} {S S' : List Nat} {B B' : Nat} {m : TM α} {Q R : α → Prop}
     (h1 : Spec S B m Q) (h2 : Spec S' B' m R) : Spec S B m (fun a => Q a ∧ R a) := by
   intro st
@@ -727,30 +717,16 @@ theorem pass2_spec_scanned (hB : 65535 ≤ B) (l2 : Labels) : ∀ (fuel : Nat) (
       exact pass2_spec_scanned hB l2 fuel c2 (h.adv ha) (by rw [ha.2.1]; exact hl) hs1
     · exact Spec.ret _ trivial
 
-/-- `read_code`: every allocation request sized by a 16-bit field, a count derived from one, or the bytes present is at
-most 65535 elements -/
-theorem readCode_spec_sharp (hB : 65535 ≤ B) (s : Bytes) : Spec openSites B (readCode s) (fun _ => True) := by
-  unfold readCode
-  refine Spec.bind (Spec.u16 s) (fun ⟨_, s1⟩ _ => ?_)
-  refine Spec.bind (Spec.u16 s1) (fun ⟨_, s2⟩ _ => ?_)
-  refine Spec.bind (Spec.u32 s2) (fun ⟨cl, s3⟩ _ => ?_)
-  refine Spec.bind (Spec.guard _) (fun _ hg => ?_)
-  have hcl : cl ≤ 65535 := by
-    simp only [Bool.and_eq_true, decide_eq_true_eq] at hg
-    exact hg.2
-  refine Spec.bind (Labels.new_spec hB hcl) (fun l _ => ?_)
-  refine Spec.bind (Spec.takeVec s3 (Nat.le_trans hcl hB)) (fun ⟨code, s4⟩ hcode => ?_)
-  have hlen : code.length ≤ 65535 := by have : code.length = cl := hcode; omega
-  refine Spec.bind (Spec.self (pass1_spec code.length l (Cur.start code))) (fun l1 hp1 => ?_)
-  have hsc : Scanned (Cur.start code) := by
-    obtain ⟨_, st, hst⟩ := hp1
-    exact ⟨code.length, l, st, l1, hst⟩
-  refine Spec.bind (vec16L_spec hB readException_spec l1 s4) (fun ⟨l2, s5⟩ _ => ?_)
-  refine Spec.bind (Spec.u16 s5) (fun ⟨n, s6⟩ _ => ?_)
-  refine Spec.bind (readCodeAttrs_spec hB n _ s6) (fun ⟨st, _⟩ _ => ?_)
-  exact pass2_spec_scanned hB st.labels code.length (Cur.start code) (WF.start code) (by simpa [Cur.start] using hlen) hsc
+/-- `read_code`: no panic, and every allocation request is at most `B` for any `B ≥ 65535` that also bounds the input
+length: 16-bit counts, the switch capacities of the second pass (through the agreement of the passes) and the buffers
+of `read_u8_vec`, which hold bytes that are present -/
+theorem readCode_spec_sharp (hB : 65535 ≤ B) (s : Bytes) (hs : s.length ≤ B) : Spec openSites B (readCode s) (fun _ => True) :=
+  readCode_spec_gen hB s hs (fun code l hlen hsc => by
+    obtain ⟨l0, st, l1, h⟩ := hsc
+    exact pass2_spec_scanned hB l code.length (Cur.start code) (WF.start code) (by simpa [Cur.start] using hlen)
+      ⟨code.length, l0, st, l1, h⟩)
 
-theorem codeOp_spec_sharp (body : Bytes) : Spec openSites 65535 (codeOp body) (fun _ => True) :=
-  readCode_spec_sharp (Nat.le_refl _) _
+theorem codeOp_spec_sharp (body : Bytes) : Spec openSites (max 65535 (body.length + 2)) (codeOp body) (fun _ => True) :=
+  readCode_spec_sharp (Nat.le_max_left _ _) _ (by simp only [List.length_append, List.length_cons, List.length_nil]; omega)
 
 end Total.Code
